@@ -166,3 +166,10 @@ fn path_new_with_replace_small() {
         assert!(p.segments[1].as_bytes() == expect_last.as_bytes(), "ident replaced iff equal to the key");
     }
 }
+
+/// BOUNDED: <= 2 segments of <= 3 ASCII bytes, monolithic (the real is_rust_identifier body is executed)
+#[kani::proof]
+#[kani::unwind(6)]
+fn from_segments_mono_2x3() {
+    check_from_segments::<2, 3>();
+}
